@@ -303,6 +303,7 @@ func runCase(c chainsim.Case, rep chainsim.Reporter, scratch string) {
 		ok += n
 	}
 	chainsim.ReportKeyManager(h, rep)
+	chainsim.ReportVRF(h, rep) // VRF beacon support: counters of the VRF histories
 	// Non-trivial: a history with >= 3 epoch transitions in which every path was used.
 	if h.EpochTransitions >= 3 && len(h.PathUsed) >= 5 && h.Height >= int64(c.Blocks)/2 {
 		rep.Nontrivial(fmt.Sprintf("%s/%d", c.Profile, c.Seed))
